@@ -864,6 +864,39 @@ Proof.
     intros H; eauto; inversion H; auto.
 Qed.
 
+(* ---- index magnitude.  A reference token of the RFC's array-index syntax denotes its decimal
+   value whatever its size; the code's conversion saturates at ULLONG_MAX (strtoull) and never
+   wraps around, so a token whose value is not below the length is no element of the array
+   (lookup: ENOENT) and a token whose value is above the length is no place to add at (EINVAL) —
+   2^64 + j and 2^32 + j included, for every array that fits the representation bound. *)
+Theorem index_beyond_end_is_no_element : forall l tok i,
+  small (JArr l) = true -> array_index tok = Some i -> zlen l <= i ->
+  get_single_path (JArr l) tok = SPErr ENOENT.
+Proof.
+  intros l tok i Hs Ei Hge. cbn [small] in Hs. apply andb_true_iff in Hs. destruct Hs as [Hl _]. apply Z.leb_le in Hl.
+  pose proof (zlen_nonneg l) as Hn. destruct (small_bounds (zlen l) (conj Hn Hl)) as (_ & _ & _ & B4).
+  destruct (index_some _ _ Ei) as (_ & _ & Hv). unfold get_single_path. rewrite Hv.
+  destruct (i >? UINT64_MAX).
+  - apply Z.gtb_lt in B4. replace (UINT64_MAX >=? zlen l) with true by lia. reflexivity.
+  - replace (i >=? zlen l) with true by lia. reflexivity.
+Qed.
+
+Theorem index_beyond_end_is_no_place : forall al l tok i v,
+  small (JArr l) = true -> array_index tok = Some i -> zlen l < i ->
+  set_single_path (insert_idx_cb true) al (JArr l) tok v = SErr EINVAL /\
+  set_single_path move_cb al (JArr l) tok v = SErr EINVAL.
+Proof.
+  intros al l tok i v Hs Ei Hgt. cbn [small] in Hs. apply andb_true_iff in Hs. destruct Hs as [Hl _]. apply Z.leb_le in Hl.
+  pose proof (zlen_nonneg l) as Hn. destruct (small_bounds (zlen l) (conj Hn Hl)) as (_ & _ & _ & B4).
+  destruct (index_some _ _ Ei) as (_ & _ & Hv). change move_cb with (insert_idx_cb true).
+  assert (Hd : is_dash tok = false).
+  { destruct (is_dash tok) eqn:E; [|reflexivity]. rewrite (dash_not_index _ E) in Ei. discriminate. }
+  unfold set_single_path. rewrite Hd, Hv. unfold insert_idx_cb.
+  destruct (i >? UINT64_MAX).
+  - rewrite B4. auto.
+  - replace (i >? zlen l) with true by lia. auto.
+Qed.
+
 (* ================================================================ F'. where the "test" guard holds *)
 From JC Require EqProofs.
 
